@@ -58,7 +58,7 @@ def units(tier):
     return [extend, ops]
 
 def replay_args(obl, inputs, res):
-    d = res.get("_e").defines if res.get("_e") else {}
+    d = res.get("_e").defines if res.get("_e") else res.get("defines", {})
     args = [obl] + ["%s=%s" % kv for kv in sorted(d.items())]
     for k in ('limit', 'idx', 'lim', 'which', 'n', 's'):
         if k in inputs:
